@@ -36,6 +36,11 @@ func main() {
 	disk := fs.Uint64("disk", 20000, "disk size in blocks")
 	dumpEach := fs.Int("dumpeach", 50, "dump every n steps")
 	prop := fs.String("prop", "", "probes: property filter")
+	loss := fs.Int("loss", 2, "crash: random loss sets per barrier window")
+	stride := fs.Int("stride", 1, "crash: probe every n-th event boundary")
+	cont := fs.Int("cont", 3, "crash: continuation segments per workload")
+	nested := fs.Int("nested", 1, "crash: nested recovery-crash experiments per workload")
+	maxprobe := fs.Int("maxprobe", 0, "crash: cap on crash images per workload")
 	delAll := fs.Bool("deleteall", false, "finish each segment by deleting everything")
 	disks := fs.String("disks", "", "comma separated disk sizes cycled over segments (overrides -disk)")
 	snapEach := fs.Int("snapeach", 0, "structural snapshot every n steps (0 = only at the end)")
@@ -73,6 +78,20 @@ func main() {
 				fmt.Fprintln(os.Stderr, "segment", i, "failed to start:", err)
 				os.Exit(2)
 			}
+		}
+		t.Close()
+		fmt.Printf("events=%d\n", t.N)
+	case "crash":
+		t, err := drv.NewTrace(*out)
+		if err != nil {
+			panic(err)
+		}
+		profs := strings.Split(*profile, ",")
+		seg := 0
+		for i := 0; i < *nseg; i++ {
+			cfg := drv.CrashCfg{Seed: *seed*1000 + i, Ops: *steps, DiskSz: *disk, Unstable: i%4 != 3, Profile: profs[i%len(profs)],
+				Avoid: avoidSet(*avoid), Loss: *loss, Stride: *stride, Cont: *cont, Nested: *nested, MaxProbe: *maxprobe}
+			seg = drv.RunCrash(cfg, t, seg)
 		}
 		t.Close()
 		fmt.Printf("events=%d\n", t.N)
